@@ -34,6 +34,10 @@ Inductive hev :=
     (* hook: SendHandshakeInitiation(false) for peer p *)
 | HRestart
     (* Device.Down(); Device.Up() *)
+| HGhost (k : kid)
+    (* UAPI set  public_key=<pub k> update_only=true ...  for a key that is NOT configured: creates nothing *)
+| HAge (secs : N)
+    (* hook: every peer's received cookie ages by secs seconds (far from the 120 s boundary) *)
 | HSetKey (new : kid)
     (* UAPI private_key=<key new>: the device's identity changes *)
 | HCookie (keykid : kid) (msgx adx : N) (garbage : bool) (cid : N).
@@ -191,6 +195,10 @@ Definition wstep (w : world) (h : hev) : world * list out * N :=
       let '(d', outs) := dev_step (w_dev w) (EKick p e ts idx) in
       ({| w_dev := d'; w_sess := w_sess w; w_dinits := remember_inits xid outs (w_dinits w);
           w_dmsgs := remember_msgs xid outs (w_dmsgs w); w_cookies := w_cookies w |}, outs, 0)
+  | HGhost _ => (w, [], 0)
+  | HAge secs =>
+      let '(d', outs) := dev_step (w_dev w) (EAge secs) in
+      ({| w_dev := d'; w_sess := w_sess w; w_dinits := w_dinits w; w_dmsgs := w_dmsgs w; w_cookies := w_cookies w |}, outs, 0)
   | HSetKey new =>
       let '(d', outs) := dev_step (w_dev w) (ESetPrivateKey new) in
       ({| w_dev := d'; w_sess := w_sess w; w_dinits := w_dinits w; w_dmsgs := w_dmsgs w; w_cookies := w_cookies w |}, outs, 0)
@@ -406,6 +414,18 @@ Definition sstep (conf : list (kid * nat)) (s : sstate) (h : hev) (o : obs) : ss
       ({| ss_sp := put_sp (ss_sp s) q'; ss_x := ss_x s;
           ss_di := if initiated then (xid, p) :: ss_di s else ss_di s; ss_dv := ss_dv s; ss_dead := ss_dead s;
           ss_dis := if initiated then (xid, ss_dv s) :: ss_dis s else ss_dis s |}, ok)
+  | HGhost _ =>
+      (* update_only for an unknown key configures nobody: nothing is sent, nothing changes *)
+      (s, match outs with [] => true | _ => false end)
+  | HAge secs =>
+      (* a cookie is valid for CookieRefreshTime only: once more than that has passed since it was
+         received the device holds no cookie ("absent a cookie") until the next authentic reply;
+         shorter ages leave "may hold a cookie" as it is *)
+      ({| ss_sp := map (fun q => {| sp_k := sp_k q; sp_maxts := sp_maxts q; sp_open := sp_open q; sp_cur := sp_cur q;
+                                    sp_last := sp_last q; sp_lastmsg := sp_lastmsg q;
+                                    sp_ck := if CookieRefreshTimeSecs <? secs then false else sp_ck q |}) (ss_sp s);
+          ss_x := ss_x s; ss_di := ss_di s; ss_dv := ss_dv s; ss_dead := ss_dead s; ss_dis := ss_dis s |},
+       match outs with [] => true | _ => false end)
   | HSetKey new =>
       (* the identity changes: open initiations are void, nothing more is sent under the keypairs
          negotiated so far (they may still receive); nothing is emitted *)
@@ -504,7 +524,7 @@ Fixpoint check_cases (ks : list case) (idx : N) : list (N * N * N) :=
   end.
 
 (* statistics: [initiations accepted; initiations refused; responses accepted; responses refused;
-                data accepted; data refused; device initiations; completed by ref; refused by ref; restarts; cookie replies; key changes] *)
+                data accepted; data refused; device initiations; completed by ref; refused by ref; restarts; cookie replies; key changes; cookie ageings] *)
 Fixpoint bump (l : list N) (i : nat) : list N :=
   match l, i with
   | [], _ => []
@@ -521,13 +541,15 @@ Definition stat_step (st : list N) (ho : hev * obs) : list N :=
             | HRData _ _ ka => if ka then st else bump st (if no_kind 5 outs then 5 else 4)
             | HTun _ _ _ _ _ | HKick _ _ _ _ _ => if no_kind 1 outs then st else bump st 6
             | HSetKey _ => bump st 11
+            | HAge _ => bump st 12
+            | HGhost _ => st
             | HRestart => bump st 9
             | HCookie _ _ _ _ _ => bump st 10
             end in
   match o_ref o with 1 => bump st 7 | 2 => bump st 8 | _ => st end.
 
 Definition stats (ks : list case) : list N :=
-  fold_left (fun st k => fold_left stat_step (c_steps k) st) ks [0;0;0;0;0;0;0;0;0;0;0;0].
+  fold_left (fun st k => fold_left stat_step (c_steps k) st) ks [0;0;0;0;0;0;0;0;0;0;0;0;0].
 
 (* ---------------------------------------------------------------- case-file glue *)
 Definition mk_obs (outs : list (list N)) (rf : N) (peers : list (list N))
@@ -545,6 +567,8 @@ Definition rdata (xid ctr ka : N) : hev := HRData xid ctr (negb (ka =? 0)).
 Definition tun (xid p e ts idx : N) : hev := HTun xid (n2k p) (n2k e) ts idx.
 Definition kick (xid p e ts idx : N) : hev := HKick xid (n2k p) (n2k e) ts idx.
 Definition restart : hev := HRestart.
+Definition age (secs : N) : hev := HAge secs.
+Definition ghost (k : N) : hev := HGhost (n2k k).
 Definition setkey (new : N) : hev := HSetKey (n2k new).
 Definition cookie (keykid msgx adx garbage cid : N) : hev := HCookie (n2k keykid) msgx adx (negb (garbage =? 0)) cid.
 Definition mk_case (dv : N) (conf : list (N * N)) (parties : list N) (steps : list (hev * obs)) : case :=
